@@ -511,6 +511,9 @@ _UFUNC = {
     ("logical_and", "__call__"): _u_logical_and,
     ("logical_or", "__call__"): _u_logical_or,
     ("logical_not", "__call__"): _u_logical_not,
+    ("invert", "__call__"): _u_logical_not,
+    ("bitwise_and", "__call__"): _u_logical_and,
+    ("bitwise_or", "__call__"): _u_logical_or,
     ("logical_and", "reduce"): _all_reduce,
     ("logical_or", "reduce"): _any_reduce,
     ("isfinite", "__call__"): _u_isfinite,
